@@ -102,7 +102,12 @@ def run_job(job):
                 fn, ctx = target_fn(sig, p)
                 args = [build(x) for x in p.get("args", [])]
                 kwargs = {k: build(v) for k, v in p.get("kw", [])}
-                fn(*args, **kwargs)
+                if p.get("via") == "batch":
+                    res = fn.call_batch([kwargs])
+                    if res and isinstance(res[0], Exception):
+                        raise res[0]
+                else:
+                    fn(*args, **kwargs)
             except Exception as e:
                 ev["exc"] = "%s: %s" % (type(e).__name__, str(e)[:150])
             bodies = [it for it in verif_side.log.take() if it[0] == "Body"]
